@@ -297,12 +297,6 @@ theorem C12_normalized_symm (h : Net) (hwf : h.WF) (weighted : Bool) (ws : List 
     apply List.map_congr_left; intro n _
     rw [deg_eq_length_filter]; simp [degOf, edgesOf]
 
-private theorem zw_good (h : Net) (hwf : h.WF) (w : List ℚ) (hnz : ∀ p ∈ h.edges, p.2.length ≠ 0) :
-    ∀ pw ∈ h.edges.zip w, pw.1.2.Nodup ∧ (∀ a ∈ pw.1.2, a ∈ h.nodes) ∧ pw.1.2.length ≠ 0 := by
-  intro pw hpw
-  have hmem := (List.of_mem_zip hpw).1
-  exact ⟨(hwf.2.2 pw.1 hmem).1, (hwf.2.2 pw.1 hmem).2, hnz pw.1 hmem⟩
-
 /-- with every weight 1 (in particular `weighted = False`), each row of M sums to the node's degree:
     M·1 = Dv, i.e. sqrt(Dv) is in the kernel of I − Dv^{-1/2} M Dv^{-1/2} -/
 theorem C12_normalized_kernel_partial (h : Net) (hwf : h.WF) (weighted : Bool) (ws : List (Option ℚ)) (r : Norm)
